@@ -107,8 +107,8 @@ def structure_keyed(node, fn):
             # len(x.name), int(...) give an index, not a mapping key
             anc_ok = True
             for a in ast.walk(key):
-                if isinstance(a, ast.Call) and call_name(a) in ('len', 'int', 'ord') \
-                        and any(x is sub for x in ast.walk(a)):
+                if isinstance(a, ast.Call) and (call_name(a) in ('len', 'int', 'ord') or last_attr(a) in (
+                        'index', 'count', 'find')) and any(x is sub for x in ast.walk(a)):
                     anc_ok = False
             if anc_ok:
                 return True
